@@ -1,14 +1,55 @@
-(* C12 - Blank lines inside multi-line values are recovered, not paragraph breaks
-   (partial: the theorems settle the look-ahead rule at the point where it applies -
-   for every state of the parser, every current field and every continuation - and
-   that the replaced line is not trimmed later; that the rest of the parse and the
-   copyright object only differ in that line's text is decided by co-execution on
-   all admissible subsets of markers of generated documents). *)
+(* C12 - Blank lines inside multi-line values are recovered, not paragraph breaks.
+   Documents are those of the deb822 grammar extended with blank (empty or whitespace-only)
+   lines inside a field that are followed by a continuation line (Proofs/Grammar822Blank.v).
+   Two documents are related (Rdoc) when they have the same paragraphs, fields, separators and
+   lines except that some continuation lines " ." (any trailing blanks) of the first are blank
+   lines in the second.  Proved: both parse, into the same paragraphs and fields with the same
+   names and line numbers, the texts differing only at the replaced lines (" ." against the
+   empty text), hence with the same words in each field; the paragraphs get the same type; for
+   paragraphs without repeated field names the typed fields and the extra data have the same
+   keys and the same words.  (partial: paragraphs WITH repeated names and the recovery rewrites of
+   the copyright object are decided by co-execution only; the recorded line ranges may differ,
+   which the property does not exclude.) *)
 From Coq Require Import String.
 From Coq Require Import NArith List Bool.
-From DI Require Import Result PyStr Codec Deb822 Deb822Facts BlankFacts.
+From DI Require Import Result PyStr Codec Deb822 Deb822Facts BlankFacts Debcon Copyright Grammar822 Grammar822Facts
+  Grammar822Blank Dep5Facts WordFacts ConserveFacts MarkerFacts.
 Import ListNotations.
 Open Scope N_scope.
+
+(* the line-tracking parser on every document of the extended grammar: exactly its paragraphs and
+   fields, a blank line inside a field recorded as an empty line of that field *)
+Theorem C12_blank_lines_are_field_lines : forall ps, wf_doc_b ps ->
+  groups (doc_text ps) = Ok (expected_doc_b 1 ps).
+Proof. exact wf_doc_b_text_parses. Qed.
+Print Assumptions C12_blank_lines_are_field_lines.
+
+(* markers replaced by blank lines: same paragraphs, fields, names, line numbers; only the text of
+   the replaced lines differs *)
+Theorem C12_markers_replaced_parser : forall ps ps', wf_doc_b ps -> wf_doc_b ps' -> Rdoc ps ps' ->
+  exists E E', groups (doc_text ps) = Ok E /\ groups (doc_text ps') = Ok E' /\ Forall2 (Forall2 Rfield) E E'.
+Proof. exact markers_replaced_parser. Qed.
+Print Assumptions C12_markers_replaced_parser.
+
+Theorem C12_same_words_in_each_field : forall e e', Rfield e e' ->
+  f_name e = f_name e' /\ map ln_num (f_lines e) = map ln_num (f_lines e') /\
+  cwords (field_text e) = cwords (field_text e').
+Proof. intros e e' H. destruct (Rfield_shape e e' H) as [H1 H2]. repeat split; try assumption. now apply Rfield_words. Qed.
+Print Assumptions C12_same_words_in_each_field.
+
+Theorem C12_same_paragraph_type : forall g g', Forall2 Rfield g g' -> classify g = classify g'.
+Proof. exact Rgroup_classify. Qed.
+Print Assumptions C12_same_paragraph_type.
+
+(* the copyright object: same type, same typed fields and extra data, the same words in each *)
+Theorem C12_markers_replaced_paragraph : forall t g g' p p', Forall2 Rfield g g' -> NoDup (map fname (live g)) ->
+  from_fields t g = Ok p -> from_fields t g' = Ok p' ->
+  p_type p = p_type p' /\
+  Forall2 (fun kv kv' => fst kv = fst kv' /\ cwords (fval_dumps (snd kv)) = cwords (fval_dumps (snd kv'))) (p_fields p) (p_fields p') /\
+  Forall2 Rkv (p_extra p) (p_extra p').
+Proof. exact markers_replaced_paragraph. Qed.
+Print Assumptions C12_markers_replaced_paragraph.
+
 
 (* a continuation line is neither blank nor a declaration *)
 Theorem C12_continuation_is_content : forall v, is_cont v = true -> is_blank v = false /\ is_decl v = false.
@@ -46,3 +87,17 @@ Print Assumptions C12_not_trimmed.
 Theorem C12_formatted_equal : decode_line [32; 46] = [] /\ decode_line [] = [].
 Proof. exact decode_marker_or_blank. Qed.
 Print Assumptions C12_formatted_equal.
+
+(* the hypotheses are satisfiable: a license text whose two markers become an empty and a
+   whitespace-only line *)
+Example C12_nonvacuous :
+  let f := mkGField (lit "License") (lit " ") (lit "MIT") [lit " a"; lit " ."; lit " b"; lit " .  "; lit "  c"] in
+  let f' := mkGField (lit "License") (lit " ") (lit "MIT") [lit " a"; []; lit " b"; lit "   "; lit "  c"] in
+  let d := [([mkGField (lit "Files") (lit " ") (lit "*") []; f], 0%nat)] in
+  let d' := [([mkGField (lit "Files") (lit " ") (lit "*") []; f'], 0%nat)] in
+  groups (doc_text d') =
+  Ok [[mkField (lit "files") [mkLine 1 (lit "*")];
+       mkField (lit "license") [mkLine 2 (lit "MIT"); mkLine 3 (lit " a"); mkLine 4 []; mkLine 5 (lit " b"); mkLine 6 []; mkLine 7 (lit "  c")]]]
+  /\ rmap (map (map (fun e => cwords (field_text e)))) (groups (doc_text d)) =
+     rmap (map (map (fun e => cwords (field_text e)))) (groups (doc_text d')).
+Proof. vm_compute. split; reflexivity. Qed.
